@@ -159,11 +159,14 @@ SPECS = {
         ("point_load_not_split", SIMU, "            eval_n /= len(nodes)\n", "            eval_n /= 1\n"),
         ("pressure_thickness_dropped", SIMU, "            magnitude *= self.model.thickness\n", "            magnitude *= 1.0\n"),
         ("beam_hermitian_load_wrong_row", R + "Simulations/_beam.py", "                N_e_pg[:, :, row, :],", "                N_e_pg[:, :, min(row, 1), :],"),
+        ("beam_line_load_rows_in_beam_axes", R + "Simulations/_beam.py", '        N_e_pg = np.einsum("eji,epjn->epin", R_e, np.asarray(N_e_pg))', '        N_e_pg = np.asarray(N_e_pg)'),
+        ("beam_line_load_rotation_not_transposed", R + "Simulations/_beam.py", '        N_e_pg = np.einsum("eji,epjn->epin", R_e, np.asarray(N_e_pg))', '        N_e_pg = np.einsum("eij,epjn->epin", R_e, np.asarray(N_e_pg))'),
     ],
     "C10": [
         ("beam_P_not_transposed", ELBEAM, "            P[elems] = beam._Calc_P().T\n", "            P[elems] = beam._Calc_P()\n"),
         ("pmat_D2_3d_entry", MUT, "                [p21 * p33 + p31 * p23, p11 * p33 + p31 * p13, p11 * p23 + p21 * p13],  # type: ignore", "                [p21 * p33 + p31 * p23, p11 * p33 - p31 * p13, p11 * p23 + p21 * p13],  # type: ignore"),
         ("beam_yaxis_handedness", R + "Models/Beam/_beam.py", "        k = Normalize(np.cross(i, j))\n\n        J = np.array([i, j, k]).T", "        k = Normalize(np.cross(j, i))\n\n        J = np.array([i, j, k]).T"),
+        ("beam_line_load_rows_in_beam_axes", R + "Simulations/_beam.py", '        N_e_pg = np.einsum("eji,epjn->epin", R_e, np.asarray(N_e_pg))', '        N_e_pg = np.asarray(N_e_pg)'),
         ("timoshenko_shear_sign_3d", ELBEAM, "            B_e_pg[:, :, 5, idx_ry] += Nu_pg  # +ry", "            B_e_pg[:, :, 5, idx_ry] -= Nu_pg  # +ry"),
     ],
     "C11": [
